@@ -12,7 +12,8 @@ def run(tier, replay):
         events = json.load(open(replay))["replay"]["events"]
     else:
         if tier == "quick":
-            jobs = [["tamper", 1, 0, 1, 0, 0], ["tamper", 2, 50, 2, 2, 0, "zt"], ["tamper", 4, 20, 3, 1, 0], ["tamper", 1, 150, 4, 0, 0, "zt"]]
+            jobs = [["tamper", 1, 0, 1, 0, 0], ["tamper", 2, 50, 2, 2, 0, "zt"], ["tamper", 4, 20, 3, 1, 0], ["tamper", 1, 150, 4, 0, 0, "zt"],
+                    ["stride13", "tamper", 2, 700, 1, 2, 0]]      # a file longer than 255 / 512 bytes (offsets beyond one byte, many chunks and hash windows): body positions sampled with stride 13
         else:
             jobs = [["tamper", T, n, (n + T) % 5, (n // 5 + T) % 3, 1] + (["zt"] if (n + T) % 2 else []) for T in (1, 2, 3, 4) for n in (0, 20, 50, 70, 100, 150)] + \
                    [["tamper", 2, 40, cm, hm, 0] for cm in range(5) for hm in range(3)] + [["tamper", 16, 33, 1, 2, 0]]
